@@ -10,7 +10,7 @@
    A = E<asset hex> | C<asset hex>.<abf hex> *)
 From Coq Require Import List NArith ZArith Bool.
 From Coq.Strings Require Import Byte.
-From EV Require Import Base.Bytes Base.Zn Base.FreeMod Model.Script Model.Ideal Model.Verify Model.Blind Model.Tamper
+From EV Require Import Base.Bytes Base.Zn Base.FreeMod Model.Script Model.Ideal Model.Verify Model.Blind Model.Tamper Model.ExactProofs
   Extract.RunUtil Extract.RunC04.
 Import ListNotations.
 Open Scope Z_scope.
@@ -140,6 +140,52 @@ Definition run_opened (args : list bytes) : bytes :=
       | _, _, _ => err "parse" end
   | _, _, _ => err "fields" end.
 
+(* "C05 exact k=v asset=<hex32> abf=<hex32> value=<dec> vbf=<hex32> mk=<e|w.<min dec>.<bits dec>> claim=<dec> vgen=<asset hex>.<abf hex> vcom=<dec>.<vbf hex>"
+        gen = H_asset + abf G, c = value gen + vbf G.  mk=e: blind_value_proof(value, c, gen, vbf); mk=w.m.b: RangeProof::new(min_value = m, c, value,
+        vbf, no message, no additional commitment, exp = 0, min_bits = b, gen).  Then (1) RangeProof::verify against its own statement and
+        (2) blind_value_proof_verify(claim, vgen, vcom) with vcom = dec gen + vbf' G:   result "made=1 range=<start>..<end> ok=<0|1>" | "made=0"
+   "C05 exact k=a asset=<hex32> abf=<hex32> claim=<asset hex> vgen=<asset hex>.<abf hex>"
+        blind_asset_proof(asset, abf), then blind_asset_proof_verify(claim, vgen):          result "made=1 ok=<0|1>" | "made=0" *)
+Definition parse_gen (s : bytes) : option gel :=
+  match dots s with [a; abf] => match nhex a, zhex abf with Some a, Some abf => Some (asset_gen a abf) | _, _ => None end | _ => None end.
+Definition run_exact (args : list bytes) : bytes :=
+  match field "k"%lb args, field "asset"%lb args, field "abf"%lb args, field "claim"%lb args, field "vgen"%lb args with
+  | Some k, Some a, Some abf, Some claim, Some vgen =>
+      match nhex a, zhex abf, parse_gen vgen with
+      | Some a, Some abf, Some vgen =>
+          if bytes_eqb k "a"%lb then
+            match nhex claim, bap_new a abf with
+            | Some claim, Some sp => "made=1 ok="%lb ++ show_bool (bap_verify sp claim vgen)
+            | Some _, None => "made=0"%lb
+            | None, _ => err "claim" end
+          else
+            match field "value"%lb args, field "vbf"%lb args, field "mk"%lb args, field "vcom"%lb args with
+            | Some v, Some vbf, Some mk, Some vcom =>
+                match zdec v, zhex vbf, N_of_dec claim, dots vcom, dots mk with
+                | Some v, Some vbf, Some claim, [cv; cvbf], mk0 :: mkr =>
+                    match zdec cv, zhex cvbf with
+                    | Some cv, Some cvbf =>
+                        let gen := asset_gen a abf in
+                        let c := commit v gen vbf in
+                        let made := if bytes_eqb mk0 "e"%lb then bvp_new v c gen vbf
+                                    else match mkr with
+                                         | [m; b] => match zdec m, zdec b with
+                                                     | Some m, Some b => rr_new m c v vbf (0%N, 0) [] 0 0 b gen
+                                                     | _, _ => None end
+                                         | _ => None end in
+                        match made with
+                        | Some rr =>
+                            "made=1 range="%lb ++ match rr_verify rr c [] gen with
+                                                  | Some (lo, hi) => dec_of_N lo ++ ".."%lb ++ dec_of_N hi
+                                                  | None => "-"%lb end
+                            ++ " ok="%lb ++ show_bool (bvp_verify rr claim vgen (commit cv gen cvbf))
+                        | None => "made=0"%lb end
+                    | _, _ => err "vcom" end
+                | _, _, _, _, _ => err "parse" end
+            | _, _, _, _ => err "fields" end
+      | _, _, _ => err "parse" end
+  | _, _, _, _, _ => err "fields" end.
+
 Definition run (args : list bytes) : bytes :=
   match args with
   | kind :: rest =>
@@ -149,5 +195,6 @@ Definition run (args : list bytes) : bytes :=
         | _, _ => err "parse" end
       else if bytes_eqb kind "explicit"%lb then run_explicit rest
       else if bytes_eqb kind "opened"%lb then run_opened rest
+      else if bytes_eqb kind "exact"%lb then run_exact rest
       else err "kind"
   | _ => err "args" end.
